@@ -3,6 +3,37 @@ From Coq Require Import List Bool Arith Lia.
 From Martian.C10 Require Import Gen_H2Const Model Proofs_Measure Proofs_Inv Proofs_Tac.
 Import ListNotations.
 
+(* destMu is never left locked when sendWindowUpdates releases it on every path *)
+Definition noleak (s : state) : bool := negb (dleak_c s) && negb (dleak_s s).
+
+Lemma noleak_step_any : forall c s l s',
+  credit_unlocks c = true -> noleak s = true -> step c s l = Some s' -> noleak s' = true.
+Proof.
+  intros c s l s' Hcu Hn Hs.
+  destruct_state s;
+  destruct l; repeat match goal with t : side |- _ => destruct t end;
+  cbn [step getd setd with_rd with_rd_rf exit_failed set_trig set_remote remote
+       dc ds main cli srv wbroken_c wbroken_s sc_closed cc_closed closing done trig dleak_c dleak_s dleak set_dleak
+       rd wr wfailed werr chan queued rf inflight other] in Hs;
+  try rewrite Hcu in Hs;
+  repeat bm; try discriminate Hs; inversion Hs; subst; clear Hs;
+  repeat match goal with t : side |- _ => destruct t end;
+  repeat match goal with |- context [if ?b then _ else _] => destruct b end;
+  unfold noleak in *; red_state; try assumption;
+  repeat rewrite andb_false_r in *; simpl in *; try assumption; try discriminate.
+Qed.
+
+Lemma noleak_reachable_any : forall c s, credit_unlocks c = true -> reachable c s -> noleak s = true.
+Proof.
+  intros c s Hcu [ls H]. revert H.
+  assert (G : forall ks s0, noleak s0 = true -> run c s0 ks = Some s -> noleak s = true).
+  { induction ks as [|l ks IH]; intros s0 Hn Hr; simpl in Hr.
+    - inversion Hr; subst; assumption.
+    - destruct (step c s0 l) as [s1|] eqn:E; [|discriminate].
+      eapply IH; [|exact Hr]. eapply noleak_step_any; eassumption. }
+  apply G. reflexivity.
+Qed.
+
 (* The code as it was: proxy shutdown makes Proxy return provided no reader
    is wedged on the output channel of a direction whose writer has gone
    (the guard excludes exactly the emit-into-a-dead-channel defect). *)
@@ -16,8 +47,10 @@ Proof.
   intros s Hr Hq Hcl Hns Hb1 Hb2.
   destruct (dinv_reachable_any _ _ Hr) as (Hc & Hv).
   pose proof (noerr_reachable_any cfg_orig s eq_refl Hr) as Hne. unfold noerr in Hne.
+  pose proof (noleak_reachable_any cfg_orig s eq_refl Hr) as Hnl. unfold noleak in Hnl.
   pose proof (Hns Cl) as N1. pose proof (Hns Sv) as N2. clear Hns.
-  destruct_state s. simpl in Hcl, Hb1, Hb2. subst clo_.
+  destruct_state s. simpl in Hcl, Hb1, Hb2, Hnl. subst clo_.
+  destruct dlc_; try discriminate Hnl; destruct dls_; try discriminate Hnl; clear Hnl.
   all_q Hq. clear Hq Hr.
   destruct m_; [exfalso; discriminate Q | exfalso | reflexivity].
   destruct cl_; try discriminate Hb1; destruct sv_; try discriminate Hb2; clear Hb1 Hb2;
